@@ -21,4 +21,5 @@ include!("c14_parts/script.rs");
 include!("c14_parts/gen.rs");
 include!("c14_parts/oracle.rs");
 include!("c14_parts/pools.rs");
+include!("c14_parts/trees.rs");
 include!("c14_parts/run.rs");
